@@ -90,7 +90,7 @@ void Program::normalise() {
     std::set<int> dseen;
     for (auto& d : r.disc) {
       const RuleSpec* t = get(d.k);
-      if (!t || !t->leaf) continue;
+      if (!t) continue;
       if (d.on >= 0 && !regular.count(d.on)) continue;
       if (!dseen.insert(d.k).second) continue;
       if (d.mod == 0) d.mod = 1;
